@@ -87,6 +87,11 @@ pub struct Client {
     /// a panicking handler must have been replaced)
     #[serde(default)]
     pub reconnect: bool,
+    /// lock-step clients: after sending a request the client does not read for this long (a
+    /// reader that is slow rather than dead; with a small window the server's write blocks
+    /// meanwhile, for longer than the connection timeout when there is one)
+    #[serde(default)]
+    pub stall_reads_ms: u64,
 }
 
 #[derive(Serialize, Deserialize, Clone, Debug)]
@@ -448,6 +453,12 @@ pub fn run_client(cid: usize, c: &Client, expects: &[Expect], addr: SocketAddr, 
             offset += rendered[i].len();
             if is_trunc {
                 break;
+            }
+            // (only where the response is far larger than the window: the server is then blocked in
+            // its write for the whole stall, so its wait for the next request starts afterwards)
+            let blocks_server = c.window.map(|w| w <= 1024).unwrap_or(false) && matches!(expects.get(i), Some(Expect::Normal { body, options: false, .. }) if body.len() >= 20_000);
+            if c.stall_reads_ms > 0 && blocks_server {
+                humsim::thread::sleep(Duration::from_millis(c.stall_reads_ms.min(40_000)));
             }
             // a failed write means the server already closed: what it sent before is still readable
             let rs = read_responses(&mut s, &mut log, i + 1, wait);
@@ -839,6 +850,25 @@ fn gen_req(rng: &mut Rng, last: bool, allow_special: bool) -> Req {
     }
 }
 
+impl Client {
+    /// One lock-step client in five is a reader that stalls: a small window, a large response
+    /// among its requests, and a pause before reading that outlasts the connection timeout.
+    fn with_stall(mut self, rng: &mut Rng, timeout_ms: Option<u64>) -> Client {
+        let mut r = Rng::new(humsim::rng::mix(&[rng.next_u64(), 0xC01_0005]));
+        if self.mode == "lockstep" && r.chance(1, 5) {
+            self.window = Some([64usize, 1024][r.usize_below(2)]);
+            self.stall_reads_ms = timeout_ms.map(|t| t.max(100) + [50u64, 1500][r.usize_below(2)]).unwrap_or(2000);
+            let k = r.usize_below(self.reqs.len());
+            // (the truncation offset of a truncated last request was drawn for its bytes as they are)
+            let untouchable = self.truncate_last.is_some() && k + 1 == self.reqs.len();
+            if self.reqs[k].malformed.is_none() && self.reqs[k].path != "/panic" && !untouchable {
+                self.reqs[k].path = if r.chance(1, 2) { "/huge".into() } else { "/big".into() };
+            }
+        }
+        self
+    }
+}
+
 pub fn gen_client(rng: &mut Rng, tier: Tier, timeout_ms: Option<u64>) -> Client {
     let nreq = match rng.below(6) {
         0 => 1,
@@ -910,7 +940,9 @@ pub fn gen_client(rng: &mut Rng, tier: Tier, timeout_ms: Option<u64>) -> Client 
         window: if rng.chance(1, 8) { Some([64usize, 1024][rng.usize_below(2)]) } else { None },
         truncate_last,
         reconnect: Rng::new(humsim::rng::mix(&[rng.next_u64(), 0xC01_0003])).chance(1, 3),
+        stall_reads_ms: 0,
     }
+    .with_stall(rng, timeout_ms)
 }
 
 #[cfg(not(feature = "tk"))]
@@ -928,7 +960,7 @@ impl Prop for C01 {
         }
     }
     fn rule(&self) -> &'static str {
-        "One case = a generated application configuration (pool 1..4 threads, connection timeout none / 1..30 s, CORS wildcard / list / list whose entries are substrings of earlier ones / none) plus 1..4 (thorough 1..8) client scripts of 1..6 requests over 5 methods x 9 targets (bodies of 0, 7, 9, 20 000 and 150 000 bytes, an echo, a handler that takes 30 virtual ms, a panicking handler, an unrouted path) x 2 versions x Connection variants x bodies 0..9000 bytes x malformed kinds x idle gaps, an explicit segmentation (cut offsets + inter-segment gap) of the client byte stream, lock-step or streamed pacing, an ending (close / half-close / wait / RST) optional truncation of the last request, and for one client in three a follow-up connection with one plain request after the first connection has ended, all under one seeded schedule and seeded network knobs (short reads/writes, default segmentation, tiny windows, latency). Distinct = distinct history shape: per client the sequence of (method, target kind, well-formedness, pacing, number of segments, statuses received, how the connection ended). Non-trivial = at least two requests on one connection or two overlapping connections, and at least one cut inside a request."
+        "One case = a generated application configuration (pool 1..4 threads, connection timeout none / 1..30 s, CORS wildcard / list / list whose entries are substrings of earlier ones / none) plus 1..4 (thorough 1..8) client scripts of 1..6 requests over 5 methods x 9 targets (bodies of 0, 7, 9, 20 000 and 150 000 bytes, an echo, a handler that takes 30 virtual ms, a panicking handler, an unrouted path) x 2 versions x Connection variants x bodies 0..9000 bytes x malformed kinds x idle gaps, an explicit segmentation (cut offsets + inter-segment gap) of the client byte stream, lock-step or streamed pacing (one lock-step client in five has a small window, a 20 000- or 150 000-byte response among its requests and does not read for longer than the connection timeout while the server is blocked writing it), an ending (close / half-close / wait / RST) optional truncation of the last request, and for one client in three a follow-up connection with one plain request after the first connection has ended, all under one seeded schedule and seeded network knobs (short reads/writes, default segmentation, tiny windows, latency). Distinct = distinct history shape: per client the sequence of (method, target kind, well-formedness, pacing, number of segments, statuses received, how the connection ended). Non-trivial = at least two requests on one connection or two overlapping connections, and at least one cut inside a request."
     }
     fn assumptions(&self) -> Vec<String> {
         vec![
@@ -941,7 +973,7 @@ impl Prop for C01 {
         ]
     }
     fn expected_counters(&self) -> Vec<&'static str> {
-        vec!["c01.requests", "c01.clients_streamed", "c01.follow_up_connections", "c01.clients_lockstep", "c01.two_requests_share_segment", "c01.cut_inside_request", "c01.malformed", "c01.lenient", "c01.idle_past_timeout", "c01.panic_requests", "c01.truncated_last", "c01.rst_ending", "net.short_read", "net.window_full", "net.segmented_write"]
+        vec!["c01.requests", "c01.reader_stalls_past_timeout_on_large_response", "c01.clients_streamed", "c01.follow_up_connections", "c01.clients_lockstep", "c01.two_requests_share_segment", "c01.cut_inside_request", "c01.malformed", "c01.lenient", "c01.idle_past_timeout", "c01.panic_requests", "c01.truncated_last", "c01.rst_ending", "net.short_read", "net.window_full", "net.segmented_write"]
     }
     fn real_vs_stub(&self) -> (Vec<&'static str>, Vec<&'static str>) {
         (
@@ -1016,6 +1048,9 @@ impl Prop for C01 {
             // probes
             rr.count("c01.requests", c.reqs.len() as u64);
             rr.count(if c.mode == "streamed" { "c01.clients_streamed" } else { "c01.clients_lockstep" }, 1);
+            if c.mode == "lockstep" && c.stall_reads_ms > 0 && c.window.map(|w| w <= 1024).unwrap_or(false) && c.reqs.iter().any(|r| r.path == "/huge" || r.path == "/big") {
+                rr.count("c01.reader_stalls_past_timeout_on_large_response", 1);
+            }
             let lens: Vec<usize> = c.reqs.iter().enumerate().map(|(i, r)| render(r, cid, i).len()).collect();
             let mut bounds = Vec::new();
             let mut off = 0;
